@@ -15,9 +15,8 @@ theorem head?_append_of (l r : List Nat) : (l ++ r).head? = orElse l.head? r.hea
   cases l <;> simp [orElse]
 
 theorem getLast?_append_of (l r : List Nat) : (l ++ r).getLast? = orElse r.getLast? l.getLast? := by
-  cases hr : r with
-  | nil => simp [orElse_none_right]
-  | cons a t => simp [orElse, List.getLast?_append, List.getLast?_cons_cons]; cases h : (a :: t).getLast? <;> simp_all
+  rw [List.getLast?_append]
+  cases r.getLast? <;> simp [orElse]
 
 mutual
 theorem first_eq_head : ∀ (t : Tree), listsOK t = true → first t = (tokens t).head?
@@ -26,9 +25,9 @@ theorem firstH_eq_head : ∀ (hs : Holders), listsOKH hs = true → firstH hs = 
   | .nil, _ => rfl
   | .tok i rest, h => by
     simp only [firstH, tokensH]
-    by_cases hi : i ≠ 0
+    by_cases hi : i = 0
+    · subst hi; simp only [ne_eq, not_true_eq_false, if_false]; exact firstH_eq_head rest (by simpa [listsOKH] using h)
     · simp [hi]
-    · simp only [hi, if_false]; exact firstH_eq_head rest (by simpa [listsOKH] using h)
   | .null rest, h => by simp only [firstH, tokensH]; exact firstH_eq_head rest (by simpa [listsOKH] using h)
   | .node t rest, h => by
     simp only [listsOKH, Bool.and_eq_true] at h
@@ -57,11 +56,11 @@ theorem lastH_eq_getLast : ∀ (hs : Holders), listsOKH hs = true → lastH hs =
   | .tok i rest, h => by
     have ih := lastH_eq_getLast rest (by simpa [listsOKH] using h)
     simp only [lastH, tokensH, ih]
-    by_cases hi : i ≠ 0
-    · simp only [hi, if_true]
+    by_cases hi : i = 0
+    · subst hi; simp [orElse_none_right]
+    · simp only [ne_eq, hi, not_false_eq_true, if_true]
       have := getLast?_append_of [i] (tokensH rest)
       simpa using this.symm
-    · simp [hi, orElse_none_right]
   | .null rest, h => by simp only [lastH, tokensH]; exact lastH_eq_getLast rest (by simpa [listsOKH] using h)
   | .node t rest, h => by
     simp only [listsOKH, Bool.and_eq_true] at h
@@ -78,12 +77,18 @@ theorem lastE_eq_getLast : ∀ (es : Elems), lastOK es = true → listsOKE es = 
     simp only [listsOKE, Bool.and_eq_true] at hl
     simp only [lastOK, Bool.and_eq_true, Bool.or_eq_true, Bool.not_eq_true', List.isEmpty_eq_false_iff, List.isEmpty_iff] at hh
     have ih := lastE_eq_getLast (.cons t2 d2 rest2) hh.1 (by simp only [listsOKE, Bool.and_eq_true]; exact hl.2)
-    rw [lastE, ih, tokensE, getLast?_append_of]
-    rcases hh.2 with h2 | h2
-    · cases hr : tokensE (.cons t2 d2 rest2) with
-      | nil => exact absurd hr h2
-      | cons a l => cases hg : (a :: l).getLast? <;> simp_all [orElse]
-    · simp [h2, orElse_none_right]
+    have e : lastE (.cons t d (.cons t2 d2 rest2)) = lastE (.cons t2 d2 rest2) := rfl
+    have e2 : tokensE (.cons t d (.cons t2 d2 rest2)) = tokens t ++ tokensE (.cons t2 d2 rest2) := rfl
+    rw [e, ih, e2, getLast?_append_of]
+    have h2 := hh.2
+    generalize tokensE (.cons t2 d2 rest2) = X at *
+    rcases h2 with h2 | h2
+    · cases X with
+      | nil => exact absurd rfl h2
+      | cons a l => cases hg : (a :: l).getLast? with
+        | none => simp at hg
+        | some v => rfl
+    · rw [h2]; simp [orElse_none_right]
 end
 
 /-- **A node that owns at least one token never reports an invalid extent.** -/
@@ -109,9 +114,9 @@ theorem tokensH_sublist : ∀ (hs : Holders) (d : Tree), d ∈ subtreesH hs → 
     simp only [subtreesH] at h
     have := tokensH_sublist rest d h
     simp only [tokensH]
-    by_cases hi : i ≠ 0
-    · simp only [hi, if_true]; exact List.Sublist.cons _ this
-    · simp only [hi, if_false]; exact this
+    by_cases hi : i = 0
+    · subst hi; simpa using this
+    · simp only [ne_eq, hi, not_false_eq_true, if_true]; exact List.Sublist.cons _ this
   | .null rest, d, h => by simp only [subtreesH] at h; simp only [tokensH]; exact tokensH_sublist rest d h
   | .node t rest, d, h => by
     simp only [subtreesH, List.mem_append] at h
@@ -250,7 +255,8 @@ theorem traversal_reaches_each_node_once (t : Tree) : (accept t).2 = nodes t ∧
 theorem visited_exactly_once (t : Tree) (hnd : (nodes t).Nodup) (id : Nat) :
     (id ∈ nodes t → (accept t).2.count id = 1) ∧ (id ∉ nodes t → (accept t).2.count id = 0) := by
   rw [accept_nodes]
-  exact ⟨fun h => List.count_eq_one_of_mem hnd h, fun h => List.count_eq_zero_of_not_mem h⟩
+  rw [List.Nodup.count hnd]
+  exact ⟨fun h => by simp [h], fun h => by simp [h]⟩
 
 /-! ### Non-vacuity: `x = a + b` with a null child, a missing token and an empty list -/
 def sample : Tree :=
